@@ -36,12 +36,12 @@ def _ranges(pred):
 
 
 @functools.lru_cache(None)
-def category_ranges(cat):
+def category_ranges(cat, flags=0):
     """Code point ranges of \\d / \\s (and negations) as the running `re` module sees them."""
     pat = {"CATEGORY_DIGIT": r"\d", "CATEGORY_SPACE": r"\s", "CATEGORY_WORD": r"\w"}.get(cat)
     if pat is None:
         raise Unsupported(cat)
-    prog = re.compile(pat)
+    prog = re.compile(pat, flags)
 
     def ok(c):
         if 0xD800 <= c <= 0xDFFF:
@@ -107,8 +107,8 @@ def complement_ranges(ranges):
     return out
 
 
-def class_ranges(items):
-    """Ranges of an IN node."""
+def class_ranges(items, flags=0):
+    """Ranges of an IN node (flags: 0 or re.ASCII, which narrows the categories)."""
     neg = False
     rs = []
     for op, av in items:
@@ -122,9 +122,9 @@ def class_ranges(items):
         elif name == "CATEGORY":
             cname = str(av)
             if cname.startswith("CATEGORY_NOT_"):
-                rs.extend(complement_ranges(category_ranges("CATEGORY_" + cname[len("CATEGORY_NOT_"):])))
+                rs.extend(complement_ranges(category_ranges("CATEGORY_" + cname[len("CATEGORY_NOT_"):], flags)))
             else:
-                rs.extend(category_ranges(cname))
+                rs.extend(category_ranges(cname, flags))
         else:
             raise Unsupported(name)
     rs = _merge(rs)
@@ -156,11 +156,15 @@ class Item:
 
 class Pattern:
     def __init__(self, pattern: str, exclude=MARKS):
+        if isinstance(pattern, re.Pattern):        # the shipped compiled object: keeps its flags
+            prog, pattern = pattern, pattern.pattern
+        else:
+            prog = re.compile(pattern)
         self.pattern = pattern
         self.exclude = tuple(exclude)
-        prog = re.compile(pattern)
-        if prog.flags & ~re.UNICODE:
+        if prog.flags & ~(re.UNICODE | re.ASCII):
             raise Unsupported("flags")
+        self.cflags = re.ASCII if prog.flags & re.ASCII else 0     # re.ASCII only narrows \d \s \w
         self.ngroups = prog.groups
         self.tree = list(sre.parse(pattern))
         # anchors
@@ -191,7 +195,7 @@ class Pattern:
                 if av in marks:
                     raise Unsupported("pattern names a private-use marker character")
             elif name == "IN":
-                rs = class_ranges(av)
+                rs = class_ranges(av, self.cflags)
                 inside = {any(lo <= m <= hi for lo, hi in rs) for m in marks}
                 if len(inside) != 1:
                     raise Unsupported("a character class separates the private-use marker characters")
@@ -213,7 +217,7 @@ class Pattern:
         elif name == "ANY":
             r = charset(complement_ranges([(10, 10)]), self.exclude)
         elif name == "IN":
-            r = charset(class_ranges(av), self.exclude)
+            r = charset(class_ranges(av, self.cflags), self.exclude)
         elif name in ("MAX_REPEAT", "MIN_REPEAT"):
             lo, hi, sub = av
             inner = self.seq(sub, ins)
